@@ -94,6 +94,14 @@ def run_cases(mod, tier, seed, shard, nshards, deadline):
             v["case"] = case
             res["violations"].append(v)
     res["sigs"] = sorted(str(x) for x in sigs)
+    try:
+        from . import spin
+        if spin._state["installed"]:
+            # what the non-termination guard saw: the most function entries + jumps inside adb_shell between two transport calls, and how often it fired
+            res["stats"]["max_library_events_between_transport_calls"] = max(spin.peak(), spin._state["count"])
+            res["stats"]["spin_guard_fired"] = spin.tripped()
+    except Exception:  # noqa
+        pass
     return res
 
 
